@@ -5,6 +5,8 @@ Protocol (see harness/cmd/c03/main.go):
     at <ns> req <src> <amount> [rates=<…>] [evict=<src>]   -> 200 | 429 <delay_ns> | 500   [solo=<…>]
     retry [extra=<ns>]                                      -> <resp> t=<ns> | noretry
     at <ns> preq <src> <amount> <n> <goroutines>            -> 200=<a> 429=<b> 500=<c>   (concurrent flood at one instant)
+    park-reject -> ok   (the next refused request is held in the ErrorHandler before the error is read and answers `parked`)
+    unpark      -> <resp of the parked request> | noparked
   cfg set <rates>
     at <ns> consume <amount> -> ok | delay <ns> | err ;  at <ns> update <rates> -> ok ; maxperiod -> <ns>
   cfg ttlmap cap=<n>
@@ -67,6 +69,7 @@ def events(ops, outs):
     broken = None
     now = 0
     last429 = None
+    pending = None       # the request parked inside the error handler; its answer comes with `unpark`
     for i, (l, o) in enumerate(zip(ops, outs)):
         if l.startswith("#"):
             continue
@@ -86,6 +89,18 @@ def events(ops, outs):
                 now = max(now, int(f[1]))
                 e.t, e.src, e.amount = now, f[3], int(f[4])
                 e.rates, e.evict = kv(f, "rates"), kv(f, "evict")
+            elif f[0] == "unpark":
+                if o == "noparked" or pending is None:
+                    continue
+                if of[0] not in ("429", "500"):
+                    broken = (i, "unexpected output %r" % o)
+                    break
+                pending.status = of[0]
+                pending.delay = int(of[1]) if of[0] == "429" else 0
+                if pending.status == "429":
+                    last429 = pending
+                pending = None
+                continue
             elif f[0] == "at" and f[2] == "preq":
                 now = max(now, int(f[1]))
                 e.t, e.src, e.amount, e.n = now, f[3], int(f[4]), int(f[5])
@@ -127,6 +142,11 @@ def events(ops, outs):
                 continue
             else:
                 continue
+            if o == "parked" and not e.retry:
+                e.status, e.delay = None, 0
+                pending = e
+                evs.append(e)
+                continue
             if of[0] not in ("200", "429", "500"):
                 broken = (i, "unexpected output %r" % o)
                 break
@@ -139,6 +159,7 @@ def events(ops, outs):
             broken = (i, "uninterpretable %r -> %r (%r)" % (l, o, ex))
             break
         evs.append(e)
+    evs = [e for e in evs if e.status is not None]
     kind = cfg[1] if cfg and len(cfg) > 1 else None
     return kind, cfg, evs, broken
 
